@@ -51,10 +51,11 @@ public:
 	}
 	SmartObject& operator=(const SmartObject& n)
 	{
+		SmartObject_* p = n._p; // take the new reference before releasing the old one (n may be *this)
+		if (p)
+			++p->rc;
 		unref();
-		_p = n._p;
-		if (_p)
-			++_p->rc;
+		_p = p;
 		return *this;
 	}
 	~SmartObject()
